@@ -5,6 +5,8 @@ import json, subprocess
 props=[json.loads(l) for l in open('/verif/properties.jsonl')]
 hooks_commits=subprocess.run(['git','-C','/repo','log','--format=%h','--reverse','--grep=^verif hooks'],capture_output=True,text=True).stdout.split()
 C={
+ "C12":("model_checking","exhaustive interleaving exploration (controlled scheduler; scheduling points at every lock operation and every file-system call on segment files/directory) of Backup against 1-2 writer threads/Compact with log rollover; opened backup must equal a prefix state between call and return",
+        "writer programs <= 2 ops (3 thorough); index/meta file calls are not scheduling points; larger scenarios are completed up to the reported preemption bound"),
  "C11":("model_checking","exhaustive interleaving exploration (controlled scheduler, all lock hand-offs) of a full scan against 1-2 writer threads incl. index splits and Compact + bounded exhaustive operation-sequence enumeration for the quiescent clauses; truthful/complete/exactly-once oracles",
         "writer programs <= 2 ops; iterator Next calls that only pop an already fetched item are not scheduling points (argued partial-order reduction, DESIGN.md C11); depth bound for the quiescent part as reported"),
  "C05":("model_checking","exhaustive interleaving exploration (controlled scheduler over a sync shim, all lock hand-offs) of Compact with concurrent writers/readers x exhaustive process-crash image enumeration of every interleaved execution; WGL linearizability + acked-state oracles",
